@@ -88,7 +88,51 @@ def check_typed_strings(case):
     return viol, 'ok' if not viol else 'violated', True
 
 
+def check_long(case):
+    """A file longer than the sample load() infers from: what a cell text comes out as may not depend on where in the
+    file the cell stands (the same text before and after line 1000 gives the same value), and no line gets lost."""
+    n, opts = case['n'], case['opts']
+    kw = {}
+    if 'cast' in opts:
+        kw['cast_strategy'] = opts['cast']
+    if 'on_error' in opts:
+        kw['on_error'] = {'drop': core.dataflows.base.schema_validator.drop, 'ignore': core.dataflows.base.schema_validator.ignore,
+                          'raise': core.dataflows.base.schema_validator.raise_exception}[opts['on_error']]
+    if 'strip' in opts:
+        kw['strip'] = opts['strip']
+    lines = []
+    for i in range(n):
+        lines.append([' 2020-01-02 ' if i % 2 else '2020-01-03', '   ' if i % 7 == 3 else str(i % 5), ' 7 ' if i % 3 else '8',
+                      '\t12:30:00' if i % 4 == 1 else '11:00:00'])
+    label = 'load(<csv of %d lines: padded / plain dates, blank / numeric cells, padded integers, padded times>, %s)' % (n, cj(opts))
+    with core.scratch_dir() as d:
+        path = os.path.join(d, 'long.csv')
+        write_csv(path, ['d', 'n', 'p', 't'], lines, False)
+        try:
+            out = core.materialise(core.dataflows.load(path, **kw), via='results_raw')
+        except core.CaseTimeout:
+            raise
+        except Exception as e:
+            return [('long-file-raises', '%s raises %s: %s' % (label, core.exc_sig(e), str(e)[:120].replace('\n', ' ')))], 'violated', True
+    rows = out.rows[0]
+    if len(rows) != n:
+        return [('long-file-rows', '%s: %d rows come out' % (label, len(rows)))], 'violated', True
+    viol = []
+    for c, name in enumerate(['d', 'n', 'p', 't']):
+        seen = {}
+        for i, (line, r) in enumerate(zip(lines, rows)):
+            v = (type(r[name]).__name__, repr(r[name]))
+            if line[c] in seen and seen[line[c]][1] != v:
+                viol.append(('position-dependent/%s' % name, '%s: the cell text %r of column %s comes out as %s in line %d and as %s in '
+                             'line %d' % (label, line[c], name, seen[line[c]][1][1], seen[line[c]][0] + 2, v[1], i + 2)))
+                break
+            seen.setdefault(line[c], (i, v))
+    return viol, 'ok' if not viol else 'violated', True
+
+
 def check(case):
+    if case.get('kind') == 'long':
+        return check_long(case)
     if case.get('kind') == 'typed_strings':
         return check_typed_strings(case)
     if case.get('kind') == 'package':
@@ -330,6 +374,10 @@ def cases(tier):
         out.append({'kind': 'typed_strings', 'form': 'tuple', 'n': n})
         for fmt in ('json', 'csv'):
             out.append({'kind': 'typed_strings', 'form': 'datapackage.json', 'fmt': fmt, 'n': n})
+    for n in (5, 1003, 2100):
+        for opts in ({}, {'cast': 'schema'}, {'cast': 'schema', 'on_error': 'drop'}, {'cast': 'schema', 'on_error': 'ignore'},
+                     {'cast': 'schema', 'strip': False}, {'cast': 'strings'}):
+            out.append({'kind': 'long', 'n': n, 'opts': opts})
     from . import c10
     for names in (['a', 'ab', 'a.b'], ['aXb', 'a.b', 'a'], ['a']):
         for _, sel in c10.SELECTORS:
